@@ -1,5 +1,6 @@
 from __future__ import annotations
 from typing import Any, Literal, cast
+import re
 from abc import ABCMeta, abstractmethod
 from cryptography.x509 import load_pem_x509_certificate
 from cryptography.hazmat.primitives.serialization import (
@@ -22,24 +23,30 @@ from .types import DictKey
 from ..util import to_bytes
 
 
+# the label of the first PEM encapsulation boundary, e.g. "PRIVATE KEY"
+_PEM_LABEL = re.compile(rb"^-----BEGIN ([A-Z0-9 ]+)-----\s*$", re.MULTILINE)
+
+
 def load_pem_key(
         raw: bytes,
         ssh_type: bytes | None = None,
         password: bytes | None = None) -> Any:
     key: Any
+    matched = _PEM_LABEL.search(raw)
+    label = matched.group(1) if matched else b""
     if ssh_type and raw.startswith(ssh_type):
         key = load_ssh_public_key(raw, backend=default_backend())
 
-    elif b"OPENSSH PRIVATE" in raw:
+    elif b"OPENSSH PRIVATE" in label:
         key = load_ssh_private_key(raw, password=password, backend=default_backend())
 
-    elif b"PUBLIC" in raw:
+    elif b"PUBLIC" in label:
         key = load_pem_public_key(raw, backend=default_backend())
 
-    elif b"PRIVATE" in raw:
+    elif b"PRIVATE" in label:
         key = load_pem_private_key(raw, password=password, backend=default_backend())
 
-    elif b"CERTIFICATE" in raw:
+    elif b"CERTIFICATE" in label:
         cert = load_pem_x509_certificate(raw, backend=default_backend())
         return cert.public_key()
 
